@@ -20,7 +20,8 @@ from ..kernel import HarnessError
 
 PID = "C18"
 LEVEL = "model_checking"
-RULE = ("streams = all sequences of <=3 records over the record alphabet (unterminated record only last); schedules = all "
+RULE = ("streams = all sequences of <=3 records over the record alphabet (unterminated record only last; quick: singles and pairs over the whole alphabet of 14 SSE / 8 NDJSON "
+        "records, triples over a core of 8 / 6); schedules = all "
         "subsets of split points for short streams, all subsets with <=S points for longer ones, plus empty-chunk deviations; "
         "non-trivial = distinct (decoder, stream, chunking) with at least one split point")
 ASSUMPTIONS = [
@@ -28,7 +29,7 @@ ASSUMPTIONS = [
     "for iter_bytes only the concatenation is compared (chunk boundaries are the input there, not an output)",
     "a block consisting only of comment lines may or may not produce an (empty) event: the statement does not say; the reference accepts both",
 ]
-BOUND = {"quick": "<=3 records; all chunkings for n<=13 bytes; <=2 split points otherwise; 1 empty-chunk deviation",
+BOUND = {"quick": "<=2 records over the whole alphabet, 3 records over the core; all chunkings for n<=13 bytes; <=2 split points otherwise; 1 empty-chunk deviation",
          "thorough": "<=3 records; all chunkings for n<=17 bytes; <=3 split points otherwise; 1 empty-chunk deviation"}
 
 SSE_RECORDS = {
@@ -43,8 +44,11 @@ SSE_RECORDS = {
     "J": b"retry: 5\ndata: j\n\n",
     "K": b"data: k\r\ndata: l\r\n\r\n",  # CRLF between the lines of one event
     "N": b"data:n\nid:8\n\n",  # no space after the colon (legal SSE framing)
+    "P": b"data:\ndata: p\n\n",  # first data line empty: the payload starts with a newline
+    "Q": "data: q\ufeffr\n\n".encode(),  # U+FEFF inside a payload (only a BOM at the very start of a stream is not data)
     "H": b"data: z",  # final unterminated event (last position only)
 }
+SSE_CORE = "ABCFIKNH"  # quick: triples over these, singles and pairs over the whole alphabet
 ND_RECORDS = {
     "a": b'{"a":1}\n',
     "b": '{"b":"é名"}\r\n'.encode(),
@@ -52,15 +56,17 @@ ND_RECORDS = {
     "d": b"\n",
     "e": b'  {"e":2}  \n',
     "f": b'"x"\r',
+    "h": '{"h":"x\ufeffy"}\n'.encode(),  # U+FEFF inside a string value
     "g": b'{"c":{"d":null}}',  # unterminated last record
 }
+ND_CORE = "abcefg"
 
 
-def sequences(records, last_only, maxlen):
+def sequences(records, last_only, maxlen, core=None):
     keys = list(records)
     out = []
     for n in range(1, maxlen + 1):
-        for t in itertools.product(keys, repeat=n):
+        for t in itertools.product(keys if (core is None or n < 3) else [k for k in keys if k in core], repeat=n):
             if any(k in last_only for k in t[:-1]):
                 continue
             out.append("".join(t))
@@ -69,9 +75,9 @@ def sequences(records, last_only, maxlen):
 
 def cases(tier, seed):
     out = []
-    for seq in sequences(SSE_RECORDS, {"H"}, 3):
+    for seq in sequences(SSE_RECORDS, {"H"}, 3, SSE_CORE if tier == "quick" else None):
         out.append({"dec": "sse", "seq": seq})
-    for seq in sequences(ND_RECORDS, {"g"}, 3):
+    for seq in sequences(ND_RECORDS, {"g"}, 3, ND_CORE if tier == "quick" else None):
         out.append({"dec": "ndjson", "seq": seq})
     for c in out:
         c["tier"] = tier
